@@ -46,7 +46,8 @@ func certGenesis(r *sim.Rng) *fsm.GenesisState {
 		g.Accounts = append(g.Accounts, &fsm.Account{Address: sim.BLSKey(i).Addr, Amount: 5_000_000_000})
 	}
 	// a buyer whose balance is close to 2^64: crediting it can overflow
-	g.Accounts = append(g.Accounts, &fsm.Account{Address: sim.BLSKey(11).Addr, Amount: ^uint64(0) - 6_000_000_000_000 - uint64(r.Intn(2000))})
+	// (the genesis supply must stay below 2^64: the other balances are small against this one)
+	g.Accounts = append(g.Accounts, &fsm.Account{Address: sim.BLSKey(11).Addr, Amount: ^uint64(0) - 60_000_000_000 - uint64(r.Intn(3000))})
 	return g.State()
 }
 
@@ -59,14 +60,14 @@ func newCertChain(g *fsm.GenesisState) *certChain {
 }
 
 // certTx builds one signed certificate-results transaction against the node's current state
-func (c *certChain) certTx(r *sim.Rng) ([]byte, map[string]any) {
+func (c *certChain) certTx(r *sim.Rng) (txBytes []byte, meta map[string]any, nonSigner []byte) {
 	n := c.n
 	n.Enter()
 	h := n.FSM.Height()
 	root := h - 1
 	vs, err := n.FSM.LoadCommittee(nested, root)
 	if err != nil || vs.MultiKey == nil {
-		return nil, nil
+		return nil, nil, nil
 	}
 	members := vs.ValidatorSet.ValidatorSet
 	results := &lib.CertificateResult{RewardRecipients: &lib.RewardRecipients{}}
@@ -77,7 +78,7 @@ func (c *certChain) certTx(r *sim.Rng) ([]byte, map[string]any) {
 		budget -= p
 		results.RewardRecipients.PaymentPercents = append(results.RewardRecipients.PaymentPercents, &lib.PaymentPercents{Address: sim.BLSKey(r.Intn(10)).Addr, Percent: p, ChainId: nested})
 	}
-	meta := map[string]any{"kind": "certificate-results"}
+	meta = map[string]any{"kind": "certificate-results"}
 	// double signers
 	if r.Chance(55) {
 		var ds []*lib.DoubleSigner
@@ -148,19 +149,24 @@ func (c *certChain) certTx(r *sim.Rng) ([]byte, map[string]any) {
 	}
 	sig, e := sim.AggregateSign(vs, qc.SignBytes(), signers)
 	if e != nil {
-		return nil, nil
+		return nil, nil, nil
 	}
 	qc.Signature = sig
 	meta["non_signer"] = skip >= 0
 	tx, terr := fsm.NewCertificateResultsTx(sim.BLSKey(0).Priv, qc, n.Config.ChainId, uint64(n.Config.NetworkID), 0, h, fmt.Sprintf("c%d-%d", qcHeight, r.Intn(1_000_000)))
 	if terr != nil {
-		return nil, nil
+		return nil, nil, nil
 	}
 	bz, merr := lib.Marshal(tx)
 	if merr != nil {
-		return nil, nil
+		return nil, nil, nil
 	}
-	return bz, meta
+	if skip >= 0 {
+		if pk, e := crypto.NewPublicKeyFromBytes(members[skip].PublicKey); e == nil {
+			nonSigner = pk.Address().Bytes()
+		}
+	}
+	return bz, meta, nonSigner
 }
 
 func (c *certChain) openOrders() {
@@ -201,7 +207,7 @@ func Run(r *sim.Rng, nChains, perChain int, outDir string, wCert *sim.CaseWriter
 		a.openOrders()
 		for i := 0; i < perChain; i++ {
 			// ---- one transaction alone
-			tx, meta := a.certTx(r)
+			tx, meta, nonSigner := a.certTx(r)
 			if tx == nil {
 				break
 			}
@@ -211,10 +217,13 @@ func Run(r *sim.Rng, nChains, perChain int, outDir string, wCert *sim.CaseWriter
 				panic(e)
 			}
 			// a slash earlier in the same block: the per-block tracker is not empty when the transaction under test starts
-			if r.Chance(60) {
+			if r.Chance(70) {
 				if vals, e := a.n.FSM.GetValidators(); e == nil && len(vals) > 0 {
-					v := vals[r.Intn(len(vals))]
-					_, _, _, _ = a.n.FSM.VerifSlash(v.Address, nested, uint64(1+r.Intn(6)))
+					who := vals[r.Intn(len(vals))].Address
+					if nonSigner != nil && r.Chance(75) {
+						who = nonSigner // the very validator the transaction under test will settle as a non-signer
+					}
+					_, _, _, _ = a.n.FSM.VerifSlash(who, nested, uint64(1+r.Intn(6)))
 					pre, _ = sim.ScanState(a.n.FSM)
 				}
 			}
@@ -246,7 +255,7 @@ func Run(r *sim.Rng, nChains, perChain int, outDir string, wCert *sim.CaseWriter
 			// ---- a block of several certificate-results transactions: twin A gets all, twin B only those that succeed on A
 			var txs [][]byte
 			for j := 0; j < 2+r.Intn(3); j++ {
-				t, _ := a.certTx(r)
+				t, _, _ := a.certTx(r)
 				if t != nil {
 					txs = append(txs, t)
 					if r.Chance(60) {
